@@ -206,6 +206,39 @@ CHECKS = {
                                    "loops with the specification's replay, maze frontier invariant + flood-fill "
                                    "completeness) + per-call differential correspondence with the real placement "
                                    "states and generate_maze"),
+    "C04": dict(
+        text="Lean 4 theorems C04_ravel_lt / C04_unravel_ravel / C04_ravel_unravel / C04_ravel_injective / "
+             "C04_ravel_surjective / C04_card_counts_points / C04_ravelSpace_card / C04_ravelH_dim / C04_checkSpace_iff: "
+             "for every well-formed nested space (any depth, any number of children, Discrete / MultiBinary / "
+             "MultiDiscrete / bounded int Box with any per-cell bounds, Dict keys in sorted order) and every member, the "
+             "model of ravel (mixed-radix Horner encoding, written after _ravel_helper) gives a number below card, "
+             "unravel is its two-sided inverse and always yields a member, ravel is a bijection members <-> Fin card, "
+             "ravel_space is Discrete(card) and check_space accepts exactly the supported spaces; by mutual structural "
+             "induction over the nested inductive Space / List Space on top of encode/decode inverse lemmas. "
+             "Hypotheses exclude Discrete(start != 0) (K1), >= 2^63 points (K3: int64 is modelled unbounded) and "
+             "narrow integer Boxes (K5). Tie: the real ravel / unravel / ravel_space / check_space run on generated "
+             "nested spaces (all points and all integers for spaces up to 4096 points, corners and samples beyond, "
+             "sizes up to 2^63-1), outcomes incl. gymnasium's own `in` must equal the model's, and the decidable "
+             "specRavel / specUnravel / specRavelSpace / specCheckSpace are evaluated by the driver on the "
+             "implementation's outcome.",
+        design="§5 C04", technique="Lean 4 proof (mixed-radix lemmas + mutual structural induction over nested spaces) + "
+                                   "differential correspondence of the hand-written model with the real functions"),
+    "C05": dict(
+        text="Lean 4 theorems C05_flatten_length / C05_flatten_mem / C05_unflatten_flatten / C05_flattenSpace_int_iff / "
+             "C05_int_roundtrip_mem / C05_flatten_dtype: for every well-formed nesting of Discrete / MultiBinary / "
+             "MultiDiscrete / int Box / float Box in Dict / Tuple and every member, the model of flatten (list append "
+             "with numpy's int->float promotion, written after flatten_wrapper.py) has length flatdim, is a member of "
+             "the model of flatten_space, unflatten (np.split as take/drop, Box leaves cast back, Discrete keeps the "
+             "array dtype) returns a point with the same structure and values - the very same point, hence a member, "
+             "when every leaf is integer-typed - and the flattened Box is integer-typed exactly in that case. Hypotheses "
+             "exclude Discrete(start != 0) (K1) and narrow integer Boxes (K5). Tie: the real flatten / "
+             "unflatten(flatten) / flatten_space / flatdim on generated spaces with dyadic float bounds and points "
+             "(all points of small integer spaces, corners and samples otherwise, unequal sibling dimensions), the "
+             "real `in` answers are part of the compared outcome, and specFlatten / specRoundTrip / specFlatSpace "
+             "are evaluated by the driver on the implementation's outcome.",
+        design="§5 C05", technique="Lean 4 proof (promotion-invariant characterisation of the flattened array, mutual "
+                                   "structural induction over nested spaces) + differential correspondence with the "
+                                   "real functions"),
 }
 
 PENDING = {
